@@ -185,6 +185,8 @@ struct Got {
 pub struct Ctx {
     dir: PathBuf,
     solo: RefCell<HashMap<(Vec<u8>, Vec<bool>, (u8, usize, u8)), Got>>,
+    /// stores with many annotations for the parallel adaptors, by size
+    big: RefCell<HashMap<usize, std::rc::Rc<AnnotationStore>>>,
 }
 
 impl Drop for Ctx {
@@ -225,7 +227,7 @@ impl Ctx {
         let n = DIRCOUNT.fetch_add(1, Ordering::SeqCst);
         let dir = PathBuf::from(base).join("c20").join(format!("p{}-{}", std::process::id(), n));
         std::fs::create_dir_all(&dir).expect("cannot create the C20 work directory");
-        Ctx { dir, solo: RefCell::new(HashMap::new()) }
+        Ctx { dir, solo: RefCell::new(HashMap::new()), big: RefCell::new(HashMap::new()) }
     }
 
     /// A fresh store for the scenario, built through the public API only; stand-off members have
@@ -471,10 +473,13 @@ impl Ctx {
     }
 
     pub fn exec(&self, req: &Sx) -> (Sx, Vec<Sx>, bool) {
+        if let Sx::A(8) = req.nth(0) {
+            return self.exec_parallel(req);
+        }
         let sc = Scen::from_sx(req);
         if !sc.well_formed() {
             // not a scenario: the empty scenario (no members, no threads) stands in for it
-            return (l(vec![]), vec![l(vec![])], false);
+            return (l(vec![l(vec![]), l(vec![]), l(vec![]), l(vec![])]), vec![l(vec![])], false);
         }
         if req.nth(4).int() != 0 {
             return match self.run_free(&sc) {
@@ -496,6 +501,165 @@ impl Ctx {
                 (req.clone(), sc.ops.iter().map(|_| l(vec![l(vec![a(-6)]), a(0), a(1)])).chain(std::iter::once(l(vec![a(-6)]))).collect(), false)
             }
         }
+    }
+}
+
+// ------------------------------------------------------------------ parallel adaptors
+
+const CK_MOD: u64 = 1_000_003;
+
+fn wanted(h: usize) -> bool {
+    h % 211 == 5 && h > 1100
+}
+
+/// the positional consumers, sequentially, over a list of handles
+fn seq_consumers(v: &[usize]) -> Vec<i64> {
+    let ck = |a: u64, b: u64, v: &[usize]| -> u64 { v.iter().enumerate().map(|(i, h)| (i as u64 + a) * (*h as u64 + b)).sum::<u64>() % CK_MOD };
+    let third: Vec<usize> = v.iter().copied().filter(|h| h % 3 == 0).collect();
+    vec![
+        v.len() as i64,
+        ck(1, 1, v) as i64,
+        ck(2, 3, v) as i64,
+        v.iter().copied().find(|h| wanted(*h)).map(|h| h as i64).unwrap_or(-1),
+        ck(1, 1, &third) as i64,
+    ]
+}
+
+/// the same consumers on what `.parallel()` returns (an indexed rayon iterator), on the current pool
+fn par_consumers<'a>(mk: &(dyn Fn() -> ParIter<'a> + Sync)) -> Vec<i64> {
+    use rayon::prelude::*;
+    let collected: Vec<usize> = mk().map(|x| x.handle().as_usize()).collect();
+    let collect_ck = collected.iter().enumerate().map(|(i, h)| (i as u64 + 1) * (*h as u64 + 1)).sum::<u64>() % CK_MOD;
+    let fold_ck = mk()
+        .enumerate()
+        .fold(|| 0u64, |acc, (i, x)| acc + (i as u64 + 2) * (x.handle().as_usize() as u64 + 3))
+        .sum::<u64>()
+        % CK_MOD;
+    let first = mk().find_first(|x| wanted(x.handle().as_usize())).map(|x| x.handle().as_usize() as i64).unwrap_or(-1);
+    let third: Vec<usize> = mk().filter(|x| x.handle().as_usize() % 3 == 0).map(|x| x.handle().as_usize()).collect();
+    let filter_ck = third.iter().enumerate().map(|(i, h)| (i as u64 + 1) * (*h as u64 + 1)).sum::<u64>() % CK_MOD;
+    // zip with the positions must agree with enumerate
+    let zip_ck = mk()
+        .zip((0..collected.len()).into_par_iter())
+        .map(|(x, i)| (i as u64 + 2) * (x.handle().as_usize() as u64 + 3))
+        .sum::<u64>()
+        % CK_MOD;
+    vec![collected.len() as i64, collect_ck as i64, if zip_ck == fold_ck { fold_ck as i64 } else { -9 }, first, filter_ck as i64]
+}
+
+type ParIter<'a> = rayon::vec::IntoIter<ResultItem<'a, Annotation>>;
+
+/// sequential handles per chain, the sequential consumers, the first deviating parallel result per
+/// chain (if any), and whether everything ran without a panic
+fn parallel_observe<'a>(store: &'a AnnotationStore, workers: usize, reps: usize) -> (Vec<Vec<usize>>, Vec<Vec<i64>>, Vec<Option<Vec<i64>>>, bool) {
+    let key = store.dataset("D").and_then(|d| d.key("sound"));
+    let seqs: Vec<Vec<usize>> = vec![
+        store.annotations().map(|x| x.handle().as_usize()).collect(),
+        match &key {
+            Some(k) => k.data().filter_value(DataOperator::Equals("tick".into())).annotations().map(|x| x.handle().as_usize()).collect(),
+            None => vec![],
+        },
+        match &key {
+            Some(k) => store.annotations().filter_key_value(k, DataOperator::Equals("tock".into())).map(|x| x.handle().as_usize()).collect(),
+            None => vec![],
+        },
+    ];
+    let want: Vec<Vec<i64>> = seqs.iter().map(|v| seq_consumers(v)).collect();
+    let pool = rayon::ThreadPoolBuilder::new().num_threads(workers).build().expect("rayon pool");
+    let mk0 = || -> ParIter<'a> { store.annotations().parallel() };
+    let mk1 = || -> ParIter<'a> {
+        match &key {
+            Some(k) => k.data().filter_value(DataOperator::Equals("tick".into())).annotations().parallel(),
+            None => store.annotations().take(0).parallel(),
+        }
+    };
+    let mk2 = || -> ParIter<'a> {
+        match &key {
+            Some(k) => store.annotations().filter_key_value(k, DataOperator::Equals("tock".into())).parallel(),
+            None => store.annotations().take(0).parallel(),
+        }
+    };
+    let mks: Vec<&(dyn Fn() -> ParIter<'a> + Sync)> = vec![&mk0, &mk1, &mk2];
+    let deviating: Mutex<Vec<Option<Vec<i64>>>> = Mutex::new(vec![None; 3]);
+    let r = guard(|| {
+        std::thread::scope(|scope| {
+            for _reader in 0..2 {
+                let (pool, mks, want, deviating) = (&pool, &mks, &want, &deviating);
+                scope.spawn(move || {
+                    for _ in 0..reps {
+                        for (c, mk) in mks.iter().enumerate() {
+                            let got = pool.install(|| par_consumers(*mk));
+                            if got != want[c] {
+                                let mut d = deviating.lock().unwrap_or_else(|e| e.into_inner());
+                                if d[c].is_none() {
+                                    d[c] = Some(got);
+                                }
+                            }
+                        }
+                    }
+                });
+            }
+        })
+    });
+    let dev = deviating.lock().unwrap_or_else(|e| e.into_inner()).clone();
+    (seqs, want, dev, r.is_some())
+}
+
+impl Ctx {
+    fn big_store(&self, n: usize) -> std::rc::Rc<AnnotationStore> {
+        if let Some(s) = self.big.borrow().get(&n) {
+            return s.clone();
+        }
+        let mut text = String::with_capacity(n * 5);
+        for i in 0..n {
+            text.push_str(if i % 2 == 0 { "tick " } else { "tock " });
+        }
+        let mut store = AnnotationStore::default().with_id("big");
+        store.add_resource(TextResourceBuilder::new().with_id("R").with_text(text)).expect("resource");
+        store.add_dataset(AnnotationDataSetBuilder::new().with_id("D")).expect("dataset");
+        for i in 0..n {
+            store
+                .annotate(
+                    AnnotationBuilder::new()
+                        .with_target(SelectorBuilder::textselector("R", Offset::simple(i * 5, i * 5 + 4)))
+                        .with_data("D", "sound", if i % 2 == 0 { "tick" } else { "tock" }),
+                )
+                .expect("annotate");
+        }
+        let rc = std::rc::Rc::new(store);
+        self.big.borrow_mut().insert(n, rc.clone());
+        rc
+    }
+
+    /// (8 n workers reps): positional consumers of chain.parallel() on a pool of `workers` threads,
+    /// from two reader threads at once, `reps` times each, against the sequential iterator
+    fn exec_parallel(&self, req: &Sx) -> (Sx, Vec<Sx>, bool) {
+        let n = (req.nth(1).int().clamp(0, 20_000)) as usize;
+        let workers = (req.nth(2).int().clamp(1, 16)) as usize;
+        let reps = (req.nth(3).int().clamp(1, 50)) as usize;
+        let store_rc = self.big_store(n);
+        let (seqs, want, dev, ok) = parallel_observe(&store_rc, workers, reps);
+        let obs: Vec<Sx> = (0..3)
+            .map(|c| {
+                if !ok {
+                    return l(vec![a(-1)]);
+                }
+                match &dev[c] {
+                    None => {
+                        let mut v: Vec<Sx> = want[c].iter().map(|x| a(*x)).collect();
+                        v.push(a(1));
+                        l(v)
+                    }
+                    Some(g) => {
+                        let mut v: Vec<Sx> = g.iter().map(|x| a(*x)).collect();
+                        v.push(a(0));
+                        l(v)
+                    }
+                }
+            })
+            .collect();
+        let input = l(vec![a(8), a(workers as i64), a(reps as i64), l(seqs.iter().map(|v| l(v.iter().map(|h| a(*h as i64)).collect())).collect())]);
+        (input, obs, n > 1100 && workers >= 2)
     }
 }
 
@@ -950,6 +1114,25 @@ pub fn generate(out: &mut Out, tier: &str, seed: u64) {
         out.count("free_run");
     }
 
+    // E. the parallel adaptors: positional consumers of chain.parallel() on pools of 2..8 workers
+    //    over stores with thousands of annotations, against the sequential iterator
+    let sizes: Vec<usize> = if thorough { vec![1030, 5000, 12000] } else { vec![1030, 4000] };
+    for n in sizes {
+        for workers in 2..=8usize {
+            let req = l(vec![a(8), a(n as i64), a(workers as i64), a(if thorough { 12 } else { 5 })]);
+            let (i, o, nt) = ctx.exec(&req);
+            out.case(&i, &o, nt, &req);
+            out.count("parallel_adaptors");
+        }
+    }
+    // below the size where anything could be drained on the pool, and a single worker
+    for (n, workers) in [(0usize, 2usize), (7, 3), (1024, 4), (3000, 1)] {
+        let req = l(vec![a(8), a(n as i64), a(workers as i64), a(2)]);
+        let (i, o, nt) = ctx.exec(&req);
+        out.case(&i, &o, nt, &req);
+        out.count("parallel_adaptors");
+    }
+
     if incomplete > 0 {
         // the pool announced as exhaustive in RULE was not enumerated completely: the evidence
         // must not say it was
@@ -957,6 +1140,6 @@ pub fn generate(out: &mut Out, tier: &str, seed: u64) {
     }
 }
 
-pub const RULE: &str = "Deterministic scheduler over real threads holding &AnnotationStore (blocked at the stam_verif yield points before every access to the serialisation mode and the changed flags; one thread runs at a time); every execution rebuilds the store and its stand-off files under .cache/work/c20/. A (exhaustive, both tiers): for every store with one member (inline / plain-text stand-off / .json stand-off resource, inline / stand-off dataset; changed flag clear and set: 8 stores) every unordered pair of calls out of {store.to_json_string, ToJson::to_json_string(member, store config), inherent member.to_json_string(), ToJson::to_json_string(member, unrelated Config), pure readers: annotation iteration, find_text + reverse lookups, query, .parallel() through rayon}: ALL schedules, enumerated depth-first by re-execution (the generator fails if a pair exceeds the cap). A3: two calls on one thread (ToJson::to_json_string(member) followed by store.to_json_string), and store.to_json_file into a file of the thread's own (read back), each next to every other call on the one-member stores: all schedules up to 100 (thorough 1500), 25 (100) random ones beyond. A4: stores with a stand-off dataset whose file cannot be written (5 stores), pairs out of {store.to_json_string, store.to_json_string twice on one thread, the member calls, a pure reader}: all schedules up to 80 (thorough 1500), 20 (100) random beyond; every call that has to rewrite the file must return Err every time. A2: stores with one resource and one dataset (5 kind combinations x all flag combinations): all schedules up to 800 (thorough 4000), 100 random ones beyond, for pairs of {store serialisation, ToJson(dataset)}; 10 (thorough 100) random schedules for the other pairs. B: three threads on one-member stores: 20 random schedules per triple (quick), all schedules up to 1000 + 300 random beyond (thorough). C: random stores of up to 2+2 members with 2-3 random calls under random schedules. D: free runs - 2-4 threads started together WITHOUT the scheduler (real pre-emption) on stores of 1-5 members. Per thread: the member forms in the string it obtained and equality of the whole string with the string the same call returns alone on an identical store, compared with the specified solo result and with the model's prediction for the executed schedule; per run: whether every stand-off file still holds its member's content. Non-trivial: a stand-off member exists and at least two threads were scheduled twice or more. distinct = distinct (scenario, schedule) lines.";
+pub const RULE: &str = "Deterministic scheduler over real threads holding &AnnotationStore (blocked at the stam_verif yield points before every access to the serialisation mode and the changed flags; one thread runs at a time); every execution rebuilds the store and its stand-off files under .cache/work/c20/. A (exhaustive, both tiers): for every store with one member (inline / plain-text stand-off / .json stand-off resource, inline / stand-off dataset; changed flag clear and set: 8 stores) every unordered pair of calls out of {store.to_json_string, ToJson::to_json_string(member, store config), inherent member.to_json_string(), ToJson::to_json_string(member, unrelated Config), pure readers: annotation iteration, find_text + reverse lookups, query, .parallel() through rayon}: ALL schedules, enumerated depth-first by re-execution (the generator fails if a pair exceeds the cap). A3: two calls on one thread (ToJson::to_json_string(member) followed by store.to_json_string), and store.to_json_file into a file of the thread's own (read back), each next to every other call on the one-member stores: all schedules up to 100 (thorough 1500), 25 (100) random ones beyond. A4: stores with a stand-off dataset whose file cannot be written (5 stores), pairs out of {store.to_json_string, store.to_json_string twice on one thread, the member calls, a pure reader}: all schedules up to 80 (thorough 1500), 20 (100) random beyond; every call that has to rewrite the file must return Err every time. A2: stores with one resource and one dataset (5 kind combinations x all flag combinations): all schedules up to 800 (thorough 4000), 100 random ones beyond, for pairs of {store serialisation, ToJson(dataset)}; 10 (thorough 100) random schedules for the other pairs. B: three threads on one-member stores: 20 random schedules per triple (quick), all schedules up to 1000 + 300 random beyond (thorough). C: random stores of up to 2+2 members with 2-3 random calls under random schedules. D: free runs - 2-4 threads started together WITHOUT the scheduler (real pre-emption) on stores of 1-5 members. E: the parallel adaptors: stores with 1030 and 4000 (thorough: 1030, 5000, 12000) annotations, rayon pools of 2..8 workers, two reader threads at once, 5 (12) repetitions each, three iterator chains (all annotations; data-filtered via the key; annotations().filter_key_value): len, collect, enumerate/zip fold, find_first, filter+collect of chain.parallel() against the sequential iterator, order included. Per thread: the member forms in the string it obtained and equality of the whole string with the string the same call returns alone on an identical store, compared with the specified solo result and with the model's prediction for the executed schedule; per run: whether every stand-off file still holds its member's content. Non-trivial: a stand-off member exists and at least two threads were scheduled twice or more. distinct = distinct (scenario, schedule) lines.";
 
 pub const EXHAUSTIVE: bool = true;
